@@ -6,6 +6,7 @@ import (
 	"encoding/json"
 	"fmt"
 	"math/rand/v2"
+	"strings"
 	"time"
 
 	clocktesting "k8s.io/utils/clock/testing"
@@ -198,6 +199,18 @@ func histLabels(raw json.RawMessage, impl any) []string {
 		if (s.K == "drain" || s.K == "node" || s.K == "add") && s.D != nil {
 			l = append(l, "deadline")
 		}
+		if s.K == "node" {
+			switch {
+			case s.C != "":
+				l = append(l, "claim:"+s.C)
+			case s.A == nil && s.D == nil:
+				l = append(l, "annotation:absent")
+			case s.A == nil:
+				l = append(l, "annotation:utc")
+			default:
+				l = append(l, "annotation:"+annotationClass(*s.A))
+			}
+		}
 	}
 	e, d := callsOf(impl)
 	if e > 0 {
@@ -216,6 +229,23 @@ func histLabels(raw json.RawMessage, impl any) []string {
 		}
 	}
 	return l
+}
+
+// annotationClass labels a raw annotation value for the input-distribution histogram (what the real parser says
+// about it, and the presentation for valid ones).
+func annotationClass(a string) string {
+	t, err := time.Parse(time.RFC3339, a)
+	if err != nil {
+		return "malformed"
+	}
+	c := "valid"
+	if !strings.HasSuffix(a, "Z") {
+		c += "-zone"
+	}
+	if t.Nanosecond() != 0 || strings.Contains(a, ".") {
+		c += "-fraction"
+	}
+	return c
 }
 
 func histShrink(raw json.RawMessage) []any {
@@ -375,16 +405,18 @@ func Ops() []*core.Op {
 			Shrink:     histShrink,
 		},
 		{
-			Name:       "c10.controller",
-			Doc:        "the same histories with every drain pass driven through termination.Controller.Reconcile (finalize -> nodeTerminationTime from the NodeClaim annotation -> Taint -> awaitDrain -> Drain)",
-			N:          n(300, 2000),
-			Gen:        func(r *rand.Rand, t core.Tier) any { return genHistory(r, t, true) },
-			Impl:       implHist(true),
-			Rule:       "random histories with whole-second deadlines; non-trivial = at least one eviction or delete call was made",
-			Nontrivial: hasRemoval,
-			Labels:     histLabels,
-			Signature:  func(json.RawMessage, any) string { return "controller" },
-			Shrink:     histShrink,
+			Name:           "c10.controller",
+			Doc:            "the same histories with every drain pass driven through termination.Controller.Reconcile (finalize -> NodeClaimForNode -> nodeTerminationTime from the NodeClaim annotation -> Taint -> awaitDrain -> Drain); the NodeClaim presents the deadline as an RFC 3339 timestamp in UTC / another zone / with a fraction, as a value that is not a timestamp, not at all, or there is no / more than one NodeClaim",
+			N:              n(400, 3000),
+			Gen:            func(r *rand.Rand, t core.Tier) any { return genHistory(r, t, true) },
+			Enum:           enumController,
+			ExhaustiveNote: "every presentation of the node deadline (UTC, 6 zones x 7 fractions, +00:00/-00:00, 29 classes of values that are not timestamps with one or two NodeClaims, no annotation, no NodeClaim, duplicate NodeClaims) x clock before/after the pods' thresholds, over a PDB-blocked pod, a do-not-disrupt pod and a critical pod",
+			Impl:           implHist(true),
+			Rule:           "random histories; per controller pass 50 % annotation derived from the deadline (UTC) or absent, 22 % other zone/fraction, 18 % not a timestamp, 5 % no NodeClaim, 5 % duplicate NodeClaims; non-trivial = at least one eviction or delete call was made",
+			Nontrivial:     hasRemoval,
+			Labels:         histLabels,
+			Signature:      func(json.RawMessage, any) string { return "controller" },
+			Shrink:         histShrink,
 		},
 	}
 }
